@@ -211,6 +211,19 @@ CHECKS = {
              "spreading exponents with s+1 < n; under-resolved spreadings are not compared.",
         technique="TLA+ algebra of scaling/normalisation + TLC on integer tables; TLC-enumerated parameter lattice realised on the code",
         ref="§4 C15", engine="tlc"),
+    "C12": dict(
+        text="Convert.tla is a quantity algebra (rational x power of pi): for WW3, SWAN netCDF, WWM and ERA5 it states the native bin "
+             "contribution to the variance (native value, Jacobian, native widths) and the converted one (per Hz per degree with the "
+             "converted widths); TLC checks VariancePreserved bin by bin, BinKeepsPhysicalDir (going-to turned by 180 degrees, radians "
+             "to degrees incl. 11.25/5.625-degree grids, labels in [0,360)) and DispatchTotalAndRight (the name-based recogniser with its "
+             "if-chain order). Each state is realised as an in-memory xarray.Dataset in the native layout (leading sizes, lon/lat with or "
+             "without time dimension, wind/depth present or absent) through read_dataset and from_<model>; bins, labels, the variance "
+             "in native units and winds from components are compared with the exact expectation; ERA5 (default grid, missing values) "
+             "and NDBC (1-D, 2-D integrating back to 1-D) are replayed on top.",
+        note="Trusted: TLC; native datasets are built in memory because netCDF files of these conventions cannot be opened offline. "
+             "Defect found and repaired: read_dataset's ERA5 branch.",
+        technique="TLA+ quantity algebra of the unit/direction conventions + TLC invariants + replay of every state",
+        ref="§4 C12", engine="tlc"),
 }
 
 NOT_YET = "check not yet built in this round (see DESIGN.md §4 for the planned TLA+ model); not claimed"
